@@ -736,7 +736,48 @@ def first_buffer_growth_after(b, start):
     return out
 
 
+# ---------------------------------------------------------------------------------- size-origin
+def rule_size_origin(ctx):
+    """every memory descriptor that is emitted (pushed to memory_blocks) carries a location whose size is the size of
+    the object actually written: a typed writer's location() as a whole, or (position, len(appended bytes))"""
+    R = "C01/size-origin"
+    from engine.origin import field_of, alts
+    n = 0
+    for b in ctx.prog.bodies:
+        pushes = list(b.calls(lambda c: c.short == "std::vec::Vec::push"))
+        if not pushes:
+            continue
+        o = Origin(b)
+        k = 0
+        for bi, t in pushes:
+            a = o.call_args(bi)
+            recv = strip(a[0])
+            if not (recv[0] == "field" and recv[2] == "memory_blocks"):
+                continue
+            n += 1
+            k += 1
+            mem = field_of(a[1], "memory")
+            ok = mem is not None
+            why = ""
+            for m in (alts(mem) if mem is not None else []):
+                m = strip(m)
+                if m[0] == "call" and (m[1].endswith("MemoryArrayWriter::location") or m[1].endswith("MemoryWriter::location")):
+                    continue
+                if m[0] == "agg" and m[1].endswith("MINIDUMP_LOCATION_DESCRIPTOR"):
+                    d = dict(m[3])
+                    ds, rva = core(d["data_size"]), core(d["rva"])
+                    if ds[0] == "call" and ds[1].split("::")[-1] == "len" and rva[0] == "call" and rva[1].endswith("Buffer::position"):
+                        continue
+                ok = False
+                why = show(m)[:160]
+            ctx.check(ok, R, (b.short, "memory_blocks.push#%d" % k), b.where(bi),
+                      "the emitted descriptor's location is a typed writer's location() (rva and size of what was written) or (position, len(appended bytes))",
+                      "the emitted memory descriptor's rva/size are not taken together from the object that was written: %s" % why)
+    ctx.floor(R, "memory descriptors emitted", n, 3)
+
+
 def run(ctx):
+    rule_size_origin(ctx)
     rule_dir_count(ctx)
     rule_stream_unique(ctx)
     rule_count_array(ctx)
